@@ -21,7 +21,7 @@ from . import files, gen, model
 from .cli import COUNTRY_LANGS, COUNTRY_METHODS
 
 NUMERIC_KEYS = ("price", "crypto_in", "crypto_fee", "fiat_in_no_fee", "fiat_in_with_fee", "fiat_fee", "out", "fee", "out_with_fee", "fiat_out_no_fee", "sent", "received")
-ASSETS = ["BTC", "ETH", "B1", "XLM", "DOT.x", "ADA_2"]
+ASSETS = ["BTC", "ETH", "B1", "XLM", "DOT.x", "ADA_2", "PancakeSwap-LP-CAKE-BNB-2021", "PancakeSwap-LP-CAKE-BNB-2022"]  # two long names that differ only at the very end (LP tokens)
 NOTES = ["", "", "first buy", "monthly plan", "cold storage 2", "see ticket 42", "rebalancing"]
 
 
@@ -155,6 +155,7 @@ def file_case(
     single_entry_schedules: bool = False,
     force_window: bool = False,
     schedule_weight: int = 1,
+    numeric_uids: bool = False,
 ) -> Dict[str, Any]:
     hist = hist or gen.GenCfg(min_steps=3, max_steps=12, max_exchanges=3, max_holders=2)
     country = draw(st.sampled_from(countries))
@@ -184,6 +185,10 @@ def file_case(
         for row in raw:
             uid += 1
             row["uid"] = f"{name.lower()}-{uid:03d}"
+            if numeric_uids and draw(st.integers(0, 3)) == 0:
+                # an order number typed into the cell as a number (read back by ezodf as a float)
+                row["uid"] = str(7345000 + uid)
+                row["uid_numeric"] = True
             note = draw(st.sampled_from(NOTES))
             if note:
                 row["notes"] = note
